@@ -22,6 +22,7 @@
 #include "ptrheap.h"
 #include "seqptrmap.h"
 #include "timerqueue.h"
+#include "asprintf.h"
 
 #include "sim.h"
 #include "simalloc.h"
@@ -1072,6 +1073,39 @@ tq_drain(void)
 	TQ = NULL;
 }
 
+/* =================== asprintf (anchored by C14 only) =================== */
+static void
+asprintf_op(size_t a, size_t b)
+{
+	char * out = (char *)0x1, want[700], pad[600];
+	int rc, wl, f0 = simalloc_failed;
+	size_t n = a % 500, live0 = simalloc_lib_live(NULL);
+
+	R->cnt[N_OPS]++;
+	memset(pad, 'q', n);
+	pad[n] = 0;
+	wl = snprintf(want, sizeof(want), "%s|%zu|%d|%s", pad, b, (int)(a % 97) - 40, b % 2 ? "x" : "");
+	LIB_ENTER();
+	rc = asprintf(&out, "%s|%zu|%d|%s", pad, b, (int)(a % 97) - 40, b % 2 ? "x" : "");
+	LIB_LEAVE();
+	TR(0x70, n, rc, "asprintf(%zu-byte argument) -> %d", n, rc);
+	if (rc == -1) {
+		if (!AF_SINCE(f0))
+			sim_viol("C14.rc", "asprintf", "asprintf failed without an allocation failure");
+		if (simalloc_lib_live(NULL) != live0)
+			sim_viol("C14.leak", "asprintf", "a failed asprintf left memory allocated");
+		R->cnt[N_OPFAIL]++;
+		return;
+	}
+	if (AF_SINCE(f0))
+		sim_viol("C14.rc", "asprintf-ok", "the allocation inside asprintf failed but it reported success");
+	if (rc != wl || strcmp(out, want) != 0)
+		sim_viol("C14.rc", "asprintf-value", "asprintf produced a different string than snprintf");
+	LIB_ENTER();
+	free(out);
+	LIB_LEAVE();
+}
+
 /* =================== generation =================== */
 void
 engine_gen(struct plan * P, uint64_t seed, struct prng * g)
@@ -1086,7 +1120,7 @@ engine_gen(struct plan * P, uint64_t seed, struct prng * g)
 	else if (c13)
 		sc = 4 + (int)prng_n(g, 2);
 	else
-		sc = (int)prng_n(g, 6);
+		sc = (int)prng_n(g, 7);
 	plan_add(P, "knob", "scenario", 1, (int64_t)sc);
 	plan_add(P, "knob", "realloc_moves", 1, (int64_t)prng_chance(g, 60));
 	plan_add(P, "knob", "fill", 1, (int64_t)(prng_chance(g, 50) ? 256 : (prng_chance(g, 50) ? 0xff : 0)));
@@ -1178,6 +1212,10 @@ engine_gen(struct plan * P, uint64_t seed, struct prng * g)
 			plan_add(P, "step", ops[prng_n(g, 11)], 3, (int64_t)prng_n(g, 100000), (int64_t)prng_n(g, 100000), (int64_t)prng_chance(g, (unsigned)prefuse));
 		}
 		break;
+	case 6:
+		for (i = 0; i < n && i < 12; i++)
+			plan_add(P, "step", "asprintf", 2, (int64_t)prng_n(g, 100000), (int64_t)prng_n(g, 100000));
+		break;
 	default:
 		for (i = 0; i < n; i++) {
 			static const char * const ops[] = { "add", "add", "add", "add", "delete", "increase", "increase", "getptr", "getptr", "getptr" };
@@ -1203,8 +1241,8 @@ engine_run(const struct plan * P)
 	scenario = (int)plan_knob(P, "scenario", 0);
 	if (scenario < 0)
 		scenario = -scenario;
-	scenario %= 6;
-	snprintf(R->crash_prop, sizeof(R->crash_prop), "%s", scenario < 4 ? "C12" : "C13");
+	scenario %= 7;
+	snprintf(R->crash_prop, sizeof(R->crash_prop), "%s", scenario < 4 ? "C12" : scenario == 6 ? "C14" : "C13");
 	simalloc_realloc_moves = (int)plan_knob(P, "realloc_moves", 0);
 	simalloc_fill = (int)plan_knob(P, "fill", -1);
 	simalloc_fill_seed = 99;
@@ -1217,7 +1255,8 @@ engine_run(const struct plan * P)
 	if (pool_kind < 0 || pool_kind > 2)
 		pool_kind = 1;
 	pool_osize = pool_kind == 0 ? sizeof(struct o1) : pool_kind == 1 ? sizeof(struct o4) : sizeof(struct o4096);
-	R->cnt[N_EA + scenario]++;
+	if (scenario < 6)
+		R->cnt[N_EA + scenario]++;
 	(void)crash_or;
 
 	for (i = 0; i < P->n; i++) {
@@ -1250,6 +1289,9 @@ engine_run(const struct plan * P)
 			break;
 		case 4:
 			heap_op(l->name, a, b, ref);
+			break;
+		case 6:
+			asprintf_op(a, b);
 			break;
 		default:
 			tq_op(l->name, a, b, ref);
